@@ -1665,5 +1665,126 @@ func openDoesNotWait(c *Ctx, id string) {
 			}
 		}
 	})
+	// after the request, what is returned is the request's own outcome: the call's error itself, or nil where that very
+	// error is known to be nil — no class of refusal ("already exists", "temporary") is turned into success
+	if call, isCall := req.(*ssa.Call); isCall {
+		var softened []string
+		allInstrs(os, func(in ssa.Instruction) {
+			r, ok := in.(*ssa.Return)
+			if !ok || len(r.Results) != 1 || !dominatesInstr(req, in) {
+				return
+			}
+			seenV := map[ssa.Value]bool{}
+			var chk func(v ssa.Value, at ssa.Instruction)
+			chk = func(v ssa.Value, at ssa.Instruction) {
+				if seenV[v] {
+					return
+				}
+				seenV[v] = true
+				switch x := v.(type) {
+				case *ssa.Const:
+					if x.Value == nil && !errGuard(at.Block(), true, func(e ssa.Value) bool { return e == ssa.Value(call) }) {
+						softened = append(softened, w.pos(at.Pos()))
+					}
+				case *ssa.Phi:
+					for k, e := range x.Edges {
+						if k < len(x.Block().Preds) {
+							pb := x.Block().Preds[k]
+							chk(e, pb.Instrs[len(pb.Instrs)-1])
+						}
+					}
+				case *ssa.UnOp:
+					if al, isAl := x.X.(*ssa.Alloc); isAl && x.Op.String() == "*" {
+						for _, u := range *al.Referrers() {
+							if st, isSt := u.(*ssa.Store); isSt && st.Addr == ssa.Value(al) {
+								chk(st.Val, st)
+							}
+						}
+					}
+				}
+			}
+			chk(r.Results[0], in)
+		})
+		c.Check(len(softened) == 0, id, "open-outcome@"+fname(os), os.Pos(), "after the request the result is the request's own error (nil only where that error is nil)", fname(os)+" reports success on a path on which the request's error is not known to be nil (return nil @"+strings.Join(softened, ", ")+"): a refused stream request is counted as an opened stream")
+	}
 	c.Check(len(early) == 0, id, "open-skips@"+fname(os), os.Pos(), "success is reported only after the request", fname(os)+" reports success without having made the request (return nil @"+strings.Join(early, ", ")+"): the vBucket is counted as streaming although no stream was asked for")
+}
+
+// channelClosesKnown (C20, C13): closing a channel a second time panics on whatever goroutine does it — for a completion
+// handler that is the client library's read loop, before the waiting operation is resolved. The channel closes of the
+// module are the ones confirmed by reading (today one: the stream's stop channel, closed by the wait goroutine when the
+// streams have ended for good and no rebalance is in progress); a close inside a sync.Once body is once by construction.
+var closesKnown = map[string]string{
+	"stream.stopCh": "closed by the stream's wait goroutine, which Open starts once per session and which closes only when the session was not ended by a rebalance (C12.R5/R9 decide the flags)",
+}
+
+func channelClosesKnown(c *Ctx, id string) {
+	w := c.W
+	n := 0
+	for _, fn := range w.ModFuncs {
+		allInstrs(fn, func(in ssa.Instruction) {
+			cc := callOf(in)
+			if cc == nil {
+				return
+			}
+			b, ok := cc.Value.(*ssa.Builtin)
+			if !ok || b.Name() != "close" || len(cc.Args) != 1 {
+				return
+			}
+			n++
+			c.CallSites++
+			c.see(fn)
+			what := w.Origin(cc.Args[0])
+			key := what
+			if f := loadedField(cc.Args[0]); f != nil {
+				owner := ""
+				if fa, isFA := unwrap(cc.Args[0]).(*ssa.UnOp); isFA {
+					if fad, isFAd := fa.X.(*ssa.FieldAddr); isFAd {
+						if pt, isP := fad.X.Type().(*types.Pointer); isP {
+							if nt, isN := types.Unalias(pt.Elem()).(*types.Named); isN {
+								owner = nt.Obj().Name()
+							}
+						}
+					}
+				}
+				key = owner + "." + f.Name()
+			}
+			// inside the function handed to sync.Once.Do: once by construction
+			inOnce := false
+			if par := fn.Parent(); par != nil {
+				allInstrs(par, func(x ssa.Instruction) {
+					if c2 := callOf(x); c2 != nil && strings.HasSuffix(calleeName(c2), "Once).Do") && len(c2.Args) == 2 && closureOf(c2.Args[1]) == fn {
+						inOnce = true
+					}
+				})
+			}
+			switch {
+			case inOnce:
+				c.OK(id, "close:"+key+"@"+fname(rootFn(fn)), in.Pos(), "closed inside a sync.Once body")
+			case closesKnown[key] != "":
+				c.OK(id, "close:"+key+"@"+fname(rootFn(fn)), in.Pos(), "%s", closesKnown[key])
+			default:
+				c.Fail(id, "close:"+key+"@"+fname(rootFn(fn)), in.Pos(), "%s closes the channel %s and nothing shows that it runs at most once for that channel (no sync.Once around it; not one of the confirmed closes): a second close panics on the goroutine that runs it", fname(fn), what)
+			}
+		})
+	}
+	if n == 0 {
+		c.Undecided(id, "close", 0, "no channel close found in the module (the stream's stop channel was closed by its wait goroutine when this rule was written)")
+	}
+}
+
+// gateWaitsOnlyForPersistence (C07, C20): the observer's handlers run on the client library's read loop; the only thing
+// they may wait for is the rollback-mitigation's persistence condition (a sleeping poll that the closed switch ends).
+// The gate and what it calls receive from no channel, take no lock and wait on nothing else.
+func gateWaitsOnlyForPersistence(c *Ctx, id string) {
+	w := c.W
+	oi := observerInfo(c, id)
+	for _, g := range oi.gates {
+		c.see(g)
+		ops := w.blockingOps(g, func(in ssa.Instruction) bool {
+			cc := callOf(in)
+			return cc != nil && calleeName(cc) == "time.Sleep"
+		})
+		c.Check(len(ops) == 0, id, "gate-waits@"+fname(g), g.Pos(), "the gate waits for the persistence condition only (a sleeping poll)", "the observer's gate can wait for something other than the persistence condition ("+strings.Join(ops, ", ")+"): it runs on the client library's read loop, where a wait that is never released stalls every stream of the connection and a second release (close of a closed channel) panics")
+	}
 }
